@@ -167,7 +167,7 @@ func c37F(r *Rand, m int) string {
 }
 
 // stakes (pool, total) whose reduced denominator is m
-func c37Stakes(r *Rand, small bool) (uint64, uint64, int) {
+func c37Stakes(r *Rand, small bool, tier string) (uint64, uint64, int) {
 	if small {
 		m := 1 + r.Intn(48)
 		n := 1 + r.Intn(m)
@@ -184,7 +184,11 @@ func c37Stakes(r *Rand, small bool) (uint64, uint64, int) {
 		}
 		return g * uint64(n), g * uint64(m), m
 	}
-	switch r.Intn(7) {
+	k := r.Intn(7)
+	if k == 6 && tier != "thorough" && !r.Chance(1, 6) {
+		k = r.Intn(6) // the big-power certificates are expensive: few in the quick tier
+	}
+	switch k {
 	case 6: // medium reduced denominator: still certified exactly
 		m := 49 + r.Intn(350)
 		n := 1 + r.Intn(m)
@@ -206,11 +210,75 @@ func c37Stakes(r *Rand, small bool) (uint64, uint64, int) {
 	}
 }
 
+// c37Fixed: emitted on every run, both tiers.
+//   - the exact rational fast path with a REDUCED sigma = n/m, n >= 2 (both the
+//     numerator root and the denominator root are raised to n), stakes scaled by
+//     a common factor, both modes, through the threshold AND the eligibility entry point;
+//   - the general (ln/exp) path for the same sigmas;
+//   - TPraos leader values placed at T-1, T, T+1 around the threshold computed HERE by
+//     integer arithmetic for the exact path (independent of the code under test);
+//   - CPraos eligibility with coefficients whose threshold is far from both 0 and 2^256, so a
+//     threshold computed in the other mode's range flips the verdict for about half the outputs.
+func c37Fixed(r *Rand, emit func(string)) {
+	two512 := new(big.Int).Lsh(big.NewInt(1), 512)
+	for _, nm := range [][2]int64{{2, 3}, {3, 4}, {2, 5}, {3, 5}, {5, 7}, {4, 9}} {
+		n, m := nm[0], nm[1]
+		for _, rs := range [][2]int64{{1, 2}, {2, 3}, {3, 5}, {1, 10}, {9, 10}} {
+			rr, ss := rs[0], rs[1]
+			den := c37Pow(ss, m)
+			num := new(big.Int).Sub(den, c37Pow(rr, m)) // f = 1 - (r/s)^m
+			fs := num.String() + " " + den.String()
+			g := Pick(r, uint64(1), 1000003, (^uint64(0))/uint64(m))
+			pool, total := g*uint64(n), g*uint64(m)
+			for mode := 0; mode <= 1; mode++ {
+				emit(fmt.Sprintf("thr %d %d %d %s", mode, pool, total, fs))
+			}
+			// T = floor(2^512 * (s^n - r^n) / s^n)
+			sn := c37Pow(ss, n)
+			t := new(big.Int).Mul(two512, new(big.Int).Sub(sn, c37Pow(rr, n)))
+			t.Quo(t, sn)
+			for d := int64(-1); d <= 1; d++ {
+				v := new(big.Int).Add(t, big.NewInt(d))
+				if v.Sign() >= 0 && v.BitLen() <= 512 {
+					emit(fmt.Sprintf("elig 1 %d %d %s %s", pool, total, fs, hexs(v.FillBytes(make([]byte, 64)))))
+				}
+			}
+			emit(fmt.Sprintf("elig 0 %d %d %s %s", pool, total, fs, hexs(r.Bytes(64))))
+		}
+		// general path, same sigma: mainnet coefficient and a large one
+		for _, fs := range []string{"1 20", "1 2", "9 10", "1 1000"} {
+			pool, total := uint64(n)*7, uint64(m)*7
+			for mode := 0; mode <= 1; mode++ {
+				emit(fmt.Sprintf("thr %d %d %d %s", mode, pool, total, fs))
+			}
+			c, _, _ := c37Coeff(strings.Fields(fs)[0], strings.Fields(fs)[1])
+			if t, err := consensus.CertifiedNatThresholdWithMode(pool, total, c, consensus.ConsensusModeTPraos); err == nil {
+				for d := int64(-1); d <= 1; d++ {
+					v := new(big.Int).Add(t, big.NewInt(d))
+					if v.Sign() >= 0 && v.BitLen() <= 512 {
+						emit(fmt.Sprintf("elig 1 %d %d %s %s", pool, total, fs, hexs(v.FillBytes(make([]byte, 64)))))
+					}
+				}
+			}
+			for k := 0; k < 3; k++ {
+				emit(fmt.Sprintf("elig 0 %d %d %s %s", pool, total, fs, hexs(r.Bytes(64))))
+			}
+		}
+	}
+	// CPraos: eight outputs against T = 2^255 (f = 1/2, full stake) and T ~ 2^256/20
+	for k := 0; k < 8; k++ {
+		emit(fmt.Sprintf("elig 0 5 5 1 2 %s", hexs(r.Bytes(64))))
+		emit(fmt.Sprintf("elig 0 5 5 1 20 %s", hexs(r.Bytes(64))))
+		emit(fmt.Sprintf("below 0 %s %s", hexs(r.Bytes(64)), new(big.Int).Lsh(big.NewInt(1), 255).String()))
+	}
+}
+
 func genC37(r *Rand, n int, tier string, emit func(string)) {
+	c37Fixed(r, emit)
 	for i := 0; i < n; i++ {
 		mode := Pick(r, 0, 0, 1, 1, 0, 1, 0, 1, 0, 1, 0, 1, 0, 1, 2, 7)
 		small := !r.Chance(1, 4)
-		pool, total, m := c37Stakes(r, small)
+		pool, total, m := c37Stakes(r, small, tier)
 		if r.Chance(1, 25) {
 			pool = 0
 		}
